@@ -327,6 +327,8 @@ def run_histories(ctx, hs, have_model, bound_ms=2000):
         if not have_model:
             continue
         mrecs, mtr, okparse = parse_model(res[i], ops, len(chans))
+        if i in (0, 2, 3) and len(ctx.samples) < 8:
+            ctx.samples.append({'history': lines[i], 'impl_records': recs[:12], 'impl_trailer': tr, 'model_records': mrecs[:12], 'model_trailer': mtr})
         if not okparse or not complete:
             bad.append({'history': lines[i], 'why': 'incomplete', 'end': end, 'model': res[i][:200]})
             continue
